@@ -105,6 +105,9 @@ func VerifP_C06C07_LabelCandidates(mode int) {
 	if mode == 0 {
 		prefix = []string{"", "a"}[verifChoice("prefix", 2)]
 	}
+	if mode == 2 {
+		prefix = []string{"", "az", "b"}[verifChoice("prefix", 3)]
+	}
 	m := 100
 	if mode == 2 {
 		m = verifInt("max", 0, 5)
@@ -172,7 +175,7 @@ func VerifP_C06C07_LabelCandidates(mode int) {
 	if cs.IsComplete {
 		verifAssert(len(cs.List) == total, "C06:label-complete-only-if-nothing-omitted")
 	}
-	if total <= m && mode != 2 {
+	if total <= m {
 		verifAssert(len(cs.List) == total, "C07:labels-below-limit-all-offered")
 	}
 	verifReach("end")
